@@ -49,7 +49,7 @@ def main():
         }],
         "checks": checks,
         "not_applicable": na,
-        "notes": "every check: ./check Cxx [--tier quick|thorough]; VERIF_SEED selects the random stream; evidence in /verif/evidence/Cxx.json; known findings in /verif/known_findings.json; every check = translators (gen/) -> lake build + #print axioms audit + forbidden-token grep -> correspondence of the real code with the Lean model (differences outside a property's stated domain are evidence, not a broken tie) -> thorough: leanchecker -> property oracle on the real code (independent of the model; history oracles on ONE object: decoder, message object, capture file, transceiver, clock generator); parts of the model that a property's text does not name (C13 random generators, C19 SCH decoders) are reported as NOTE lines and evidence, they do not decide; DESIGN.md section 10 is the as-built description, 10.4/10.8 list the 187 seeded and 227 harmless changes the checks are regressed against",
+        "notes": "every check: ./check Cxx [--tier quick|thorough]; VERIF_SEED selects the random stream; evidence in /verif/evidence/Cxx.json; known findings in /verif/known_findings.json; every check = translators (gen/) -> lake build + #print axioms audit + forbidden-token grep -> correspondence of the real code with the Lean model (differences outside a property's stated domain are evidence, not a broken tie) -> thorough: leanchecker -> property oracle on the real code (independent of the model; history oracles on ONE object: decoder, message object, capture file, transceiver, clock generator); parts of the model that a property's text does not name (C13 random generators, C19 SCH decoders) are reported as NOTE lines and evidence, they do not decide; DESIGN.md section 10 is the as-built description, 10.4/10.8 list the 190 seeded and 227 harmless changes the checks are regressed against",
     }
     with open(os.path.join(ROOT, "MANIFEST.json"), "w") as f:
         json.dump(man, f, indent=1)
